@@ -337,7 +337,8 @@ def parseNatText (b : Bytes) : Option Nat :=
   | [] => none
   | c :: cs => if c.toNat = 48 ∧ cs ≠ [] then none else parseDigits (c :: cs) 0
 
-def parseIntText (b : Bytes) : Option Int :=
+/-- Canonical decimal text (what `Int.Marshal` writes): optional `-`, no leading zeros. -/
+def parseIntTextCanon (b : Bytes) : Option Int :=
   match b with
   | [] => none
   | c :: cs =>
@@ -349,6 +350,62 @@ def parseIntText (b : Bytes) : Option Int :=
       match parseNatText (c :: cs) with
       | some n => some (n : Int)
       | none => none
+
+/-! `sdkmath.Int.Unmarshal` / `LegacyDec.Unmarshal` read the text with `big.Int.UnmarshalText`, i.e.
+Go's number scanner with base 0: an optional sign `+`/`-`, the prefixes `0b 0o 0x` (and a bare leading
+`0` = octal), `_` between digits, the whole input consumed (math/big natconv.go `nat.scan`,
+intconv.go `setFromScanner`).  Everything beyond canonical decimal is only reachable by hand-made
+bytes; it is modelled so that the decode probe on mutated bytes agrees with the real codec. -/
+
+def goDigit (base : Nat) (c : UInt8) : Option Nat :=
+  let n := c.toNat
+  let d := if 48 ≤ n ∧ n ≤ 57 then n - 48 else if 97 ≤ n ∧ n ≤ 122 then n - 97 + 10
+           else if 65 ≤ n ∧ n ≤ 90 then n - 65 + 10 else 99
+  if d < base then some d else none
+
+/-- The digit loop: `prev` is 0 (`.`), 1 (a digit or prefix) or 2 (`_`).  Returns the value, the digit
+count, the last `prev`, whether a separator was misplaced, and the unread rest. -/
+def goScanLoop (base : Nat) : Bytes → Nat → Nat → Nat → Bool → (Nat × Nat × Nat × Bool × Bytes)
+  | [], acc, cnt, prev, inval => (acc, cnt, prev, inval, [])
+  | c :: cs, acc, cnt, prev, inval =>
+    if c.toNat = 95 then goScanLoop base cs acc cnt 2 (inval || prev != 1)
+    else match goDigit base c with
+      | some d => goScanLoop base cs (acc * base + d) (cnt + 1) 1 inval
+      | none => (acc, cnt, prev, inval, c :: cs)
+
+def goScanFinish (base : Nat) (octal0 : Bool) (prev0 : Nat) (rest : Bytes) : Option Nat :=
+  match goScanLoop base rest 0 0 prev0 false with
+  | (acc, cnt, prev, inval, left) =>
+    if inval || prev = 2 then none
+    else if cnt = 0 then (if octal0 && left.isEmpty then some 0 else none)
+    else if left.isEmpty then some acc else none
+
+def goScanNat (b : Bytes) : Option Nat :=
+  match b with
+  | [c] => if c.toNat = 48 then some 0 else goScanFinish 10 false 0 b
+  | c0 :: c :: cs =>
+    if c0.toNat = 48 then
+      if c.toNat = 98 ∨ c.toNat = 66 then goScanFinish 2 false 1 cs
+      else if c.toNat = 111 ∨ c.toNat = 79 then goScanFinish 8 false 1 cs
+      else if c.toNat = 120 ∨ c.toNat = 88 then goScanFinish 16 false 1 cs
+      else goScanFinish 8 true 1 (c :: cs)
+    else goScanFinish 10 false 0 b
+  | [] => none
+
+def goScanInt (b : Bytes) : Option Int :=
+  match b with
+  | [] => none
+  | c :: cs =>
+    if c.toNat = 45 then (goScanNat cs).map fun n => -(n : Int)
+    else if c.toNat = 43 then (goScanNat cs).map fun n => (n : Int)
+    else (goScanNat b).map fun n => (n : Int)
+
+/-- The text of a big integer: canonical decimal first (the only form the encoder produces), then
+the rest of Go's base-0 syntax. -/
+def parseIntText (b : Bytes) : Option Int :=
+  match parseIntTextCanon b with
+  | some i => some i
+  | none => goScanInt b
 
 /-- `BitLen() <= bits`. -/
 def bigOK (bits : Nat) (i : Int) : Bool := i.natAbs < 2 ^ bits
